@@ -27,7 +27,8 @@ Bindings == {"redirect", "post", "soap"}
 \* wrapped_ownref: a forged request whose own Signature child references the forged request itself (a copy with the
 \* Reference rewritten: it cannot verify) placed after an Extensions element that holds the genuine signed request -- the
 \* tool operates on the first Signature below the start node, which is the genuine one
-Sigs == {"none", "valid", "invalid", "wrapped", "wrapped_ownref"}
+\* wrapped_prefix: as wrapped, the forged request's identifier extending the genuine one ("req1" / "req1-2")
+Sigs == {"none", "valid", "invalid", "wrapped", "wrapped_ownref", "wrapped_prefix"}
 Muts == {"none", "dest_foreign", "dest_absent", "dest_other_binding", "stale", "future", "wrong_root", "schema",
          "garbled_base64", "garbled_deflate", "truncated_xml", "not_xml"}
 \* issuerKey: metadata holds a signing key for the requester, or none
@@ -76,7 +77,7 @@ Verify ==
 \* ---- contract
 MustRefuse == \/ scn.mut \in {"dest_foreign", "stale", "future", "wrong_root", "schema", "garbled_base64",
                               "garbled_deflate", "truncated_xml", "not_xml"}
-              \/ scn.sig \in {"invalid", "wrapped", "wrapped_ownref"}
+              \/ scn.sig \in {"invalid", "wrapped", "wrapped_ownref", "wrapped_prefix"}
               \/ (scn.sig # "none" /\ scn.issuerKey = "nokey")          \* a signature must verify under the issuer's metadata key
               \/ ((scn.want \/ scn.certOnly) /\ scn.sig = "none")
 \* (the property is an "only if"; acceptance of valid requests is demanded as a sanity condition, except for the
